@@ -375,7 +375,11 @@ impl MdType for MdL {
     }
 }
 pub const EXTRA_KEY: &str = "zz-extra";
-pub const EXTRA_VALUE: &str = "a key no metadata type of this buildpack declares";
+/// (a date-time: the one TOML kind that only survives a round trip through the document form)
+pub const EXTRA_VALUE: &str = "1979-05-27T07:32:00Z";
+fn extra_value() -> toml::Value {
+    toml::Value::Datetime(EXTRA_VALUE.parse().unwrap())
+}
 impl MdType for MdA {
     fn make(u: &Universe, md: &AMd) -> Self {
         assert_eq!(md.kind, "A");
@@ -404,7 +408,7 @@ fn md_key(kind: &str) -> &'static str {
     }
 }
 pub fn project_table(u: &Universe, t: &toml::Table) -> AMd {
-    if t.len() == 2 && t.get(EXTRA_KEY).and_then(|x| x.as_str()) == Some(EXTRA_VALUE) {
+    if t.len() == 2 && t.get(EXTRA_KEY) == Some(&extra_value()) {
         if let Some(toml::Value::String(s)) = t.get("a") {
             return AMd { kind: "AX".into(), v: u.md_token_of_payload(s) };
         }
@@ -426,7 +430,7 @@ impl MdType for GenericMetadata {
         let mut t = toml::Table::new();
         t.insert(md_key(&md.kind).into(), toml::Value::String(u.md_payload(&md.v)));
         if md.kind == "AX" {
-            t.insert(EXTRA_KEY.into(), toml::Value::String(EXTRA_VALUE.into()));
+            t.insert(EXTRA_KEY.into(), extra_value());
         }
         Some(t)
     }
@@ -473,7 +477,7 @@ pub fn render_toml(u: &Universe, t: &AToml) -> Option<String> {
             if t.md.kind != "none" {
                 s.push_str(&format!("[metadata]\n{} = {}\n", md_key(&t.md.kind), toml_escape(&u.md_payload(&t.md.v))));
                 if t.md.kind == "AX" {
-                    s.push_str(&format!("{} = {}\n", toml_escape(EXTRA_KEY), toml_escape(EXTRA_VALUE)));
+                    s.push_str(&format!("{} = {}\n", toml_escape(EXTRA_KEY), EXTRA_VALUE));
                 }
             }
             Some(s)
@@ -602,6 +606,11 @@ pub fn project_toml(u: &Universe, path: &Path) -> AToml {
         Ok(t) => t,
         Err(_) => return garbage,
     };
+    // what other TOML readers (the lifecycle) would see: the toml crate's private spelling of a
+    // date-time is a table to them
+    if text.contains("$__toml_private") {
+        return AToml { k: "ok".into(), ty: no_ty(), md: AMd { kind: "UNKNOWN".into(), v: "a date-time was written as the toml crate's private marker table".into() } };
+    }
     let mut ty = no_ty();
     let mut md = no_md();
     for (k, v) in &table {
